@@ -277,7 +277,8 @@ theorem getLastD_append' (t1 t2 : List (List Id)) (R : List Id) :
 /-- `filter_for_lineage(targets, d)` for a full revision id `d` -/
 theorem filterForLineage_plain (m : LMap) (l : List Id) (d : Id) (hd : d ∈ m.ids) (hp : C16.Plain d) (b : Bool) :
     filterForLineage m l d b = .ok (l.filter (fun t => sharesLineage m t [d] b)) := by
-  unfold filterForLineage resolveFuel resolveShares
+  apply C16.filterForLineage_of_shares
+  unfold resolveFuel resolveShares
   simp [C16.resolveNumber_plain m 10 d hp, revisionForIdent_id m 10 d hd, bind, Except.bind, pure, Except.pure]
 
 /-- the destinations are pairwise outside each other's lineage (as the heads of a history are) -/
@@ -450,8 +451,11 @@ theorem stamp_one {m : LMap} (L : Loaded m) (R : List Id) (hR : Antichain m R) (
   intro x; rw [h2.iff x]; simp
 
 theorem filterForLineage_base (m : LMap) (l : List Id) (b : Bool) : filterForLineage m l "base" b = .ok l := by
-  unfold filterForLineage resolveFuel resolveShares resolveRevisionNumber
-  simp [splitFirstAt_noat "base" (by decide), bind, Except.bind, pure, Except.pure, sharesLineage]
+  have hs : resolveShares m resolveFuel "base" = .ok [] := by
+    unfold resolveFuel resolveShares resolveRevisionNumber
+    simp [splitFirstAt_noat "base" (by decide), bind, Except.bind, pure, Except.pure]
+  rw [C16.filterForLineage_of_shares m l "base" b [] hs]
+  simp [sharesLineage]
 
 /-- **`stamp base`, the command**: the version table ends empty. -/
 theorem stamp_base (m : LMap) (R : List Id) (hn : R.Nodup) (hRf : FullIds m R) :
@@ -482,9 +486,9 @@ theorem resolveShares_heads (m : LMap) (hsub : ∀ x ∈ m.realHeads, x ∈ m.id
 theorem filterForLineage_heads {m : LMap} (L : Loaded m)
     (hrh : ∀ x, x ∈ m.realHeads ↔ x ∈ m.ids ∧ ∀ c ∈ m.ids, x ∉ m.allDownOf c)
     (R : List Id) (hR : ∀ x ∈ R, x ∈ m.ids) : filterForLineage m R "heads" true = .ok R := by
-  unfold filterForLineage resolveFuel
-  rw [resolveShares_heads m (fun x hx => ((hrh x).mp hx).1)]
-  simp only [bind, Except.bind, pure, Except.pure, Except.ok.injEq]
+  rw [C16.filterForLineage_of_shares m R "heads" true m.realHeads
+    (by unfold resolveFuel; exact resolveShares_heads m (fun x hx => ((hrh x).mp hx).1))]
+  simp only [Except.ok.injEq]
   apply List.filter_eq_self.mpr
   intro x hx
   obtain ⟨hh, hmax, hreach⟩ := exists_max_above L m.ids x (hR x hx)
@@ -738,8 +742,8 @@ theorem stamp_branch_head {m : LMap} (L : Loaded m) (hsub : ∀ x ∈ m.heads, x
       unfold getRevisionsMany
       simp [getRevisions_branch_head m hsub hleg B br x hb hx, bind, Except.bind, pure, Except.pure]
     have hff : filterForLineage m R (B ++ "@head") true = .ok (R.filter (fun t => sharesLineage m t [br, x] true)) := by
-      unfold filterForLineage resolveFuel
-      simp [resolveShares_branch_head m hsub B br x hb hx, bind, Except.bind, pure, Except.pure]
+      exact C16.filterForLineage_of_shares m R _ true [br, x]
+        (by unfold resolveFuel; exact resolveShares_branch_head m hsub B br x hb hx)
     simp only [getRevisionsMany_full m R hRf, bind, Except.bind, filterMap_id_map_some, List.isEmpty_cons,
       Bool.false_eq_true, if_false, List.mapM_cons, List.mapM_nil, hne, hff, pure, Except.pure, hgm,
       List.flatten_cons, List.flatten_nil, List.append_nil]
